@@ -35,7 +35,7 @@ CFG = dict(
     # the real sarama client), n/8 random wire cases with the real sarama client, 20 (quick) / 300 (thorough) concurrent stress cases,
     # n/8+150 initial-fetch fault scenarios (half of them outlasting Metadata.Retry.Max), n/2 fine-grained random cases and
     # the exhaustive fine-grained enumeration (length <= 4 quick: 22 620 cases; <= 5 once per thorough run: 271 452)
-    n={"quick": 2000, "thorough": 100000, "search": 3000},
+    n={"quick": 2000, "thorough": 30000, "search": 3000},
     thorough_seeds=2,
     timeout={"quick": 600, "thorough": 3000},
     level="proof",
